@@ -86,6 +86,9 @@ class Fuzzer:
         self.token_n = 0
         self.fail_next_schedule_db = False
         self.early_job_started = 0
+        self.http_fe = None
+        self.commits_via_route = set()
+        self.route_commits = 0
         self.worker_posts = []
         self.intended_parents = {}
         self.legacy_parent_keys = 0
@@ -354,6 +357,35 @@ class Fuzzer:
         rng = self.rng
         complete = [p for p in cands if len(p['sent_job_bunches']) == len(p['job_bunches']) and len(p['sent_group_bunches']) == len(p['group_bunches'])]
         p = rng.choice(complete) if complete and rng.random() < 0.8 else rng.choice(cands)
+        if rng.random() < self.cfg.get('commit_via_route_p', 0.5):
+            # through the real route (auth, ownership filter and the route's own refusal of a cancelled batch), as an ordinary
+            # client commits; the direct call below stands for the fast-path handlers, which reach _commit_update without that guard
+            from aiohttp import web
+            from vf.world.http import FrontEnd
+            from vf.world.world import userdata
+
+            if self.http_fe is None:
+                self.http_fe = FrontEnd(self.w)
+                for u in self.cfg['users']:
+                    self.http_fe.auth_service.add('tok-' + u, userdata(u))
+            already = (p['batch'], p['update']) in self.commits_via_route
+            self.commits_via_route.add((p['batch'], p['update']))  # (known while the commit's own transaction is being judged)
+            try:
+                resp = await self.http_fe.request('PATCH', f"/api/v1alpha/batches/{p['batch']}/updates/{p['update']}/commit", token='tok-' + p['user'])
+            except BaseException:
+                if not already:
+                    self.commits_via_route.discard((p['batch'], p['update']))
+                raise
+            if resp.status >= 400 and not already:
+                self.commits_via_route.discard((p['batch'], p['update']))
+            if resp.status >= 400:
+                exc = {400: web.HTTPBadRequest, 404: web.HTTPNotFound, 401: web.HTTPUnauthorized, 403: web.HTTPForbidden}.get(resp.status)
+                if exc is None:
+                    raise RuntimeError(f'commit route answered {resp.status}: {(resp.text_ or "")[:120]}')
+                raise exc(reason=(resp.text_ or '')[:200])
+            self.route_commits += 1
+            p['committed'] = True
+            return {'batch_id': p['batch'], 'update': p['update'], 'via': 'route'}
         await self.w.fe._commit_update(self.w.fe_app, p['batch'], p['update'], p['user'], self.w.db)
         p['committed'] = True
         return {'batch_id': p['batch'], 'update': p['update']}
